@@ -2,6 +2,8 @@
 package stamp
 
 import (
+	"compress/gzip"
+	"io"
 	"io/fs"
 	"os"
 	"path/filepath"
@@ -83,4 +85,36 @@ func (s *scanner) walkOpt(dir string) error {
 		s.consumeOpt(path, info)
 		return nil
 	})
+}
+
+// controls of R-DRAIN
+
+func readGood(src io.Reader) ([]byte, error) {
+	r, err := gzip.NewReader(src)
+	if err != nil {
+		return nil, err
+	}
+	defer r.Close()
+	var buf [4]byte
+	if _, err := io.ReadFull(r, buf[:]); err != nil {
+		return nil, err
+	}
+	if _, err := io.Copy(io.Discard, r); err != nil {
+		return nil, err
+	}
+	return buf[:], nil
+}
+
+// stops after the last entry: the trailer is never reached
+func readBad(src io.Reader) ([]byte, error) {
+	r, err := gzip.NewReader(src)
+	if err != nil {
+		return nil, err
+	}
+	defer r.Close()
+	var buf [4]byte
+	if _, err := io.ReadFull(r, buf[:]); err != nil {
+		return nil, err
+	}
+	return buf[:], nil
 }
